@@ -183,6 +183,8 @@ def sig_c11(v):
     if cls == "listing":
         if d.get("cause") == "F23":
             return "C11/listing/incomplete-infix-stripped"
+        if d.get("rep") not in (None, "ok") and d.get("cause") != "LOOP":
+            return "C11/listing/no-reply"           # the folder's list request was not answered (or closed the connection)
         if d.get("cause") == "LOOP":
             return "C11/listing/no-reply/self-referencing-alias"
         return "C11/listing/missing=%s/extra=%s" % (",".join(sorted(_name(x) for x in d.get("missing", []))), ",".join(sorted(_name(x) for x in d.get("extra", []))))
@@ -243,8 +245,8 @@ def run_c11(ctx):
     r = ctx.model_check("MC_Files", "MC_Files_C11.cfg", timeout=1200, coverage=False)
     scripts = printed_json(r, "B")
     scripts.sort(key=lambda q: json.dumps(q, sort_keys=True))
-    if quick:   # a seeded half of the one-step behaviours (all of them in the thorough tier)
-        scripts = [q for i, q in enumerate(scripts) if (i + ctx.seed) % 2 == 0]
+    if quick:   # a seeded third of the one-step behaviours (all of them in the thorough tier)
+        scripts = [q for i, q in enumerate(scripts) if (i + ctx.seed) % 3 == 0]
     if not quick:
         ctx.model_check("MC_Files", "MC_Files_C11_deep.cfg", timeout=3000, coverage=False, heap="8g")
     nscr1 = len(scripts)
